@@ -5,7 +5,20 @@
 //   B  tightening the accuracy by 100 never makes the error more than 2x worse (ladder);
 //   C  with a fixed step the error falls at (at least) the documented order as h is halved;
 //   D  interpolated report states are not worse than max(10 x the step states of the run, K * accuracy).
-// Finding on the unchanged tree: RungeKuttaFeldberg is documented as fifth order but propagates the fourth-order solution.
+// Extension (sections ladder-ext, kicks, time-unit, order-forced; families calibrated separately, constants of the original rows unchanged):
+//   forced     non-autonomous right-hand sides (forced oscillator below / near / above resonance in (q,u) and in z, forced pendulum,
+//              Riccati scalar): A, A2 (err <= K2(family,method) * accuracy), B, D and
+//   C'         the fixed-step order on a non-autonomous problem equals the order observed on the autonomous ones (a stage evaluated
+//              at the wrong time costs orders);
+//   decay/grow linear problems started at amplitude 1e-4, 1, 1e4 that shrink / grow by >= 4 orders of magnitude (u and z relative
+//              scaling has to follow the state), in z, in (q,u), and in milliseconds with cyclic q (fastdecay/fastgrow);
+//   kick       TimeStepper + ScheduledEventHandler velocity kicks (exact piecewise solution) or a passive handler, x constraint
+//              tolerance {default, accuracy/10, 1e-3, 1e-1}: A, A2, B and
+//   E          the constraint tolerance of a system without constraints does not cost accuracy;
+//   T          the same dimensionless problem written in seconds and in milliseconds is integrated to comparable error.
+// Findings on the unchanged tree: RungeKuttaFeldberg is documented as fifth order but propagates the fourth-order solution;
+// Verlet multiplies its u and z error estimates by the step size h (a dimensional quantity), so in milliseconds it delivers errors
+// 25..105x larger than in seconds at the same accuracy (oracle T).
 #include "SimTKmath.h"
 #include "odesys.h"
 #include "verif.h"
@@ -28,6 +41,17 @@ struct Problem {
     std::string name; int nq = 0, nz = 0; Y y0; bool stiff = false;
     odesys::RhsFn rhs;
     std::function<Y(double)> exact;
+    // ---- extensions (families forced / decay / grow / kick); the defaults reproduce the original eight problems exactly
+    double T = TEND;                  // end of the integration interval
+    std::string family;               // "" = the original autonomous O(1) problems; otherwise the calibration family
+    std::vector<int> group;           // scaling group of each component in the order (q0,u0,q1,u1,...,z0,...); empty = every component its own group
+    std::function<std::vector<double>(double)> envelope;   // instead of group: analytic amplitude envelope of each component at time t (same order)
+    double stateMax = 1;              // largest magnitude the state reaches during the run (only used when it is below 1)
+    double gain = 1;                  // analytic amplification of an absolute error committed while |y| < 1 (growing problems started below 1)
+    bool largeQ = false;              // q of magnitude 1e4: q is controlled absolutely, first-order methods need > 1e6 steps at 1e-6
+    std::vector<double> kickTimes;    // scheduled event times (section kicks)
+    double kick = 0;                  // velocity increment applied by the handler (0 with passive = true: handler leaves the state alone)
+    bool passive = false;
 };
 static void matvec(const std::vector<double>& A, int n, const double* x, double* y) { for (int i = 0; i < n; ++i) { double s = 0; for (int j = 0; j < n; ++j) s += A[i * n + j] * x[j]; y[i] = s; } }
 // linear system zdot = A z with A = P L P^T, P orthogonal, L real block diagonal: 1x1 blocks (lambda) and 2x2 blocks [[a,-b],[b,a]]
@@ -103,11 +127,182 @@ static std::vector<Problem> makeProblems(int vs) {
     return P;
 }
 
+
+// ---------------------------------------------------------------- extension families (all with independent exact solutions)
+// forced pendulum q'' = -sin q + F cos(w t): reference by a harness-written RK4 table for the NON-autonomous system
+struct ForcedPendulumRef {
+    double h, F, w; std::vector<double> q, u;
+    void f(double t, double q, double u, double& dq, double& du) const { dq = u; du = -std::sin(q) + F * std::cos(w * t); }
+    void rk4(double t, double& q, double& u, double h) const {
+        double k1q, k1u, k2q, k2u, k3q, k3u, k4q, k4u;
+        f(t, q, u, k1q, k1u); f(t + h / 2, q + h / 2 * k1q, u + h / 2 * k1u, k2q, k2u); f(t + h / 2, q + h / 2 * k2q, u + h / 2 * k2u, k3q, k3u); f(t + h, q + h * k3q, u + h * k3u, k4q, k4u);
+        q += h / 6 * (k1q + 2 * k2q + 2 * k3q + k4q); u += h / 6 * (k1u + 2 * k2u + 2 * k3u + k4u);
+    }
+    ForcedPendulumRef(double q0, double u0, double F, double w) : h(5e-5), F(F), w(w) {
+        int n = (int)std::ceil(TEND / h) + 2; q.resize(n); u.resize(n); q[0] = q0; u[0] = u0;
+        for (int i = 1; i < n; ++i) { q[i] = q[i - 1]; u[i] = u[i - 1]; rk4((i - 1) * h, q[i], u[i], h); }
+    }
+    Y at(double t) const { int k = (int)std::floor(t / h); if (k < 0) k = 0; if (k > (int)q.size() - 1) k = (int)q.size() - 1; double qq = q[k], uu = u[k]; rk4(k * h, qq, uu, t - k * h); Y y; y.q = {qq}; y.u = {uu}; return y; }
+};
+static std::string g3(double x) { char b[32]; snprintf(b, sizeof b, "%g", x); return b; }
+// (a) non-autonomous problems: the right-hand side reads the time, so a stage evaluated at the wrong time is visible
+static std::vector<Problem> makeForcedProblems(int vs) {
+    std::vector<Problem> P;
+    const double w0 = 2.0 + 0.25 * vs, F = vs == 0 ? 8.0 : vs == 1 ? 6.0 : 10.0, x0 = 1.0, v0 = 0.5;
+    const double ratios[3] = {0.4, 1.05, 3.0};          // below resonance, near resonance, above (x'' + w0^2 x = F cos(w t))
+    for (int form = 0; form < 2; ++form) for (int r = 0; r < 3; ++r) {
+        const double w = ratios[r] * w0, a = F / (w0 * w0 - w * w);
+        Problem p; p.family = "forced"; p.name = std::string(form ? "forced-osc(z)" : "forced-osc(q,u)") + "[w/w0=" + g3(ratios[r]) + "]";
+        auto x = [=](double t) { return (x0 - a) * std::cos(w0 * t) + v0 / w0 * std::sin(w0 * t) + a * std::cos(w * t); };
+        auto v = [=](double t) { return -(x0 - a) * w0 * std::sin(w0 * t) + v0 * std::cos(w0 * t) - a * w * std::sin(w * t); };
+        if (form == 0) {
+            p.nq = 1; p.y0.q = {x0}; p.y0.u = {v0};
+            p.rhs = [=](Real t, const Vector& q, const Vector&, const Vector&, const Vector&, Vector& udot, Vector&) { udot[0] = -w0 * w0 * q[0] + F * std::cos(w * t); };
+            p.exact = [=](double t) { Y y; y.q = {x(t)}; y.u = {v(t)}; return y; };
+        } else {
+            p.nz = 2; p.y0.z = {x0, v0};
+            p.rhs = [=](Real t, const Vector&, const Vector&, const Vector& z, const Vector&, Vector&, Vector& zdot) { zdot[0] = z[1]; zdot[1] = -w0 * w0 * z[0] + F * std::cos(w * t); };
+            p.exact = [=](double t) { Y y; y.z = {x(t), v(t)}; return y; };
+        }
+        P.push_back(p);
+    }
+    {   // forced pendulum in (q,u): prescribed-time forcing in the harness's ODE system
+        const double q0 = 0.8 - 0.1 * vs, u0 = 0.3, Fp = 1.5 + 0.25 * vs, wp = 2.5 - 0.2 * vs;
+        std::shared_ptr<ForcedPendulumRef> ref(new ForcedPendulumRef(q0, u0, Fp, wp));
+        Problem p; p.family = "forced"; p.name = "forced-pendulum(q,u)"; p.nq = 1; p.y0.q = {q0}; p.y0.u = {u0};
+        p.rhs = [=](Real t, const Vector& q, const Vector&, const Vector&, const Vector&, Vector& udot, Vector&) { udot[0] = -std::sin(q[0]) + Fp * std::cos(wp * t); };
+        p.exact = [ref](double t) { return ref->at(t); };
+        P.push_back(p);
+    }
+    {   // Riccati-type scalar z' = -z^2 + 2/(t+1)^2: with s = t+1, z = 2/s + 1/(C s^4 - s/3)  (z = 2/s + 1/v, v' = 4v/s + 1)
+        const double C = vs == 0 ? 1.0 : vs == 1 ? 0.8 : 1.5;
+        Problem p; p.family = "forced"; p.name = "riccati(z)"; p.nz = 1; p.y0.z = {2.0 + 1.0 / (C - 1.0 / 3.0)};
+        p.rhs = [](Real t, const Vector&, const Vector&, const Vector& z, const Vector&, Vector&, Vector& zdot) { const double s = t + 1; zdot[0] = -z[0] * z[0] + 2 / (s * s); };
+        p.exact = [C](double t) { const double s = t + 1; Y y; y.z = {2 / s + 1 / (C * s * s * s * s - s / 3)}; return y; };
+        P.push_back(p);
+    }
+    return P;
+}
+// The spiral in two generalized speeds (u0,u1) with cyclic coordinates q_i = integral of u_i, written in the time unit ts
+// (1 = seconds, 1e-3 = the same motion in milliseconds).  udot does not depend on q, so an error of q (controlled absolutely)
+// is not fed back into u; in milliseconds q = u/|lambda| stays below 1 until u has decayed and the (relative) control of u
+// decides the step size.  The u components of the two time units are the same dimensionless problem.
+static Problem cyclicSpiral(int vs, int dir, double A, double ts) {
+    const double a = 4.8 + 0.2 * vs, w = 3.0 + 0.5 * vs, phi = 0.7 + 0.2 * vs, sg = dir ? +1.0 : -1.0;
+    const double af = a / ts, wf = w / ts, l2 = af * af + wf * wf, lam = std::sqrt(l2);
+    Problem p; p.family = std::string(ts < 1 ? "fast" : "") + (dir ? "grow" : "decay");
+    p.name = std::string(ts < 1 ? "fast-" : "") + "cyclic-spiral(q,u)-" + (dir ? "grow" : "decay") + "[A=" + g3(A) + "]"; p.nq = 2; p.T = TEND * ts;
+    if (dir && A < 1) p.gain = std::min(std::exp(a * TEND), 1 / A);
+    p.stateMax = dir ? A * std::exp(a * TEND) : A;
+    p.largeQ = A * (dir ? std::exp(a * TEND) : 1.0) / lam > 100;
+    auto u0 = [=](double t) { return A * std::exp(sg * af * t) * std::cos(wf * t + phi); };
+    auto u1 = [=](double t) { return A * std::exp(sg * af * t) * std::sin(wf * t + phi); };
+    auto q0 = [=](double t) { return A * std::exp(sg * af * t) * (sg * af * std::cos(wf * t + phi) + wf * std::sin(wf * t + phi)) / l2; };   // antiderivatives
+    auto q1 = [=](double t) { return A * std::exp(sg * af * t) * (sg * af * std::sin(wf * t + phi) - wf * std::cos(wf * t + phi)) / l2; };
+    p.y0.q = {q0(0), q1(0)}; p.y0.u = {u0(0), u1(0)};
+    p.rhs = [=](Real, const Vector&, const Vector& uu, const Vector&, const Vector&, Vector& udot, Vector&) { udot[0] = sg * af * uu[0] - wf * uu[1]; udot[1] = wf * uu[0] + sg * af * uu[1]; };
+    p.exact = [=](double t) { Y y; y.q = {q0(t), q1(t)}; y.u = {u0(t), u1(t)}; return y; };
+    p.envelope = [=](double t) { const double e = A * std::exp(sg * af * t); return std::vector<double>{e / lam, e, e / lam, e}; };
+    return p;
+}
+// The spiral in z (no q, no u) in the time unit ts: exactly the same dimensionless problem for every ts (section time-unit).
+static Problem zSpiral(int vs, int dir, double A, double ts) {
+    const double a = (4.8 + 0.2 * vs) / ts, w = (3.0 + 0.5 * vs) / ts, phi = 0.7 + 0.2 * vs, sg = dir ? +1.0 : -1.0;
+    Problem p; p.family = dir ? "grow" : "decay"; p.T = TEND * ts;
+    p.name = std::string(ts < 1 ? "fast-" : "") + "spiral(z)-" + (dir ? "grow" : "decay") + "[A=" + g3(A) + "]"; p.nz = 2; p.group = {0, 0};
+    if (dir && A < 1) p.gain = std::min(std::exp(a * p.T), 1 / A);
+    p.stateMax = dir ? A * std::exp(a * p.T) : A;
+    p.y0.z = {A * std::cos(phi), A * std::sin(phi)};
+    p.rhs = [=](Real, const Vector&, const Vector&, const Vector& z, const Vector&, Vector&, Vector& zdot) { zdot[0] = sg * a * z[0] - w * z[1]; zdot[1] = w * z[0] + sg * a * z[1]; };
+    p.exact = [=](double t) { const double e = A * std::exp(sg * a * t); Y y; y.z = {e * std::cos(w * t + phi), e * std::sin(w * t + phi)}; return y; };
+    return p;
+}
+// (b) state-scale families: linear problems started at amplitude A in {1e-4, 1, 1e4} whose state shrinks (or grows) by
+// >= 4 orders of magnitude during the run, so that the integrators' relative scaling of u and z has to follow the state
+static std::vector<Problem> makeScaleProblems(int vs) {
+    std::vector<Problem> P;
+    const double AMP[3] = {1e-4, 1.0, 1e4};
+    const double k1 = 4.8 + 0.2 * vs, k2 = 6.0 + 0.2 * vs, a = 4.8 + 0.2 * vs, w = 3.0 + 0.5 * vs, phi = 0.7 + 0.2 * vs;
+    for (int dir = 0; dir < 2; ++dir) for (int ai = 0; ai < 3; ++ai) for (int kind = 0; kind < 4; ++kind) {
+        const double A = AMP[ai], sg = dir ? +1.0 : -1.0;
+        // (q,u) growing from 1e4 to 1e8 is not constructed: q is controlled absolutely (documented: no relative weighting of q),
+        // and accuracy 1e-8 of a value of 1e8 is below double precision.  The z forms cover growth from 1e4.
+        if (kind >= 2 && dir && ai == 2) continue;
+        Problem p; p.family = dir ? "grow" : "decay";
+        const std::string tag = std::string(dir ? "grow" : "decay") + "[A=" + g3(A) + "]";
+        // an absolute error committed while |y| < 1 is amplified by e^{k(T-t)}; judged relative to max(1,|y(T)|) that is min(e^{kT}, 1/A)
+        if (dir && A < 1) p.gain = std::min(std::exp(std::min(k1, a) * TEND), 1 / A);
+        p.stateMax = dir ? 0.7 * A * std::exp(std::min(k1, a) * TEND) : A;
+        if (kind == 0) {          // two uncoupled rates in z (each component its own scale)
+            p.name = "rates(z)-" + tag; p.nz = 2; const double c0 = A, c1 = -0.7 * A;
+            p.y0.z = {c0, c1};
+            p.rhs = [=](Real, const Vector&, const Vector&, const Vector& z, const Vector&, Vector&, Vector& zdot) { zdot[0] = sg * k1 * z[0]; zdot[1] = sg * k2 * z[1]; };
+            p.exact = [=](double t) { Y y; y.z = {c0 * std::exp(sg * k1 * t), c1 * std::exp(sg * k2 * t)}; return y; };
+        } else if (kind == 1) {   // spiral in z (one rotating pair: one scale group)
+            P.push_back(zSpiral(vs, dir, A, 1.0)); continue;
+        } else if (kind == 3) {   // cyclic-coordinate spiral in milliseconds: families fastdecay / fastgrow (calibrated separately)
+            P.push_back(cyclicSpiral(vs, dir, A, 1e-3)); continue;
+        } else {                  // the same spiral as a second-order system in (q,u): q of the size of u, its absolute control dominates
+            p.name = "spiral(q,u)-" + tag; p.nq = 1; p.group = {0, 0}; p.largeQ = A * (dir ? std::exp(a * TEND) : 1.0) > 100;
+            auto q = [=](double t) { return A * std::exp(sg * a * t) * std::cos(w * t + phi); };
+            auto u = [=](double t) { return A * std::exp(sg * a * t) * (sg * a * std::cos(w * t + phi) - w * std::sin(w * t + phi)); };
+            p.y0.q = {q(0)}; p.y0.u = {u(0)};
+            p.rhs = [=](Real, const Vector& qq, const Vector& uu, const Vector&, const Vector&, Vector& udot, Vector&) { udot[0] = 2 * sg * a * uu[0] - (a * a + w * w) * qq[0]; };
+            p.exact = [=](double t) { Y y; y.q = {q(t)}; y.u = {u(t)}; return y; };
+        }
+        P.push_back(p);
+    }
+    return P;
+}
+// (c) harmonic oscillator with scheduled velocity kicks (exact piecewise solution); the handler either changes the state
+// (TimeStepper then re-initialises the integrator) or is passive (the step is only cut at the event time)
+static std::vector<Problem> makeKickProblems(int vs) {
+    std::vector<Problem> P;
+    const double w = 2.0 + 0.25 * vs, x0 = 1.0, v0 = 0.5, dv = 0.25 + 0.05 * vs, period = vs == 0 ? 0.45 : vs == 1 ? 0.43 : 0.55;
+    std::vector<double> times; for (int k = 1; k * period < TEND - 1e-9; ++k) times.push_back(k * period);   // never on a report time (see reportGrid)
+    for (int form = 0; form < 2; ++form) for (int passive = 0; passive < 2; ++passive) {
+        Problem p; p.family = "kick"; p.name = std::string(form ? "kicked-rotation(z)" : "kicked-harmonic(q,u)") + (passive ? "[passive handler]" : "[kicks]");
+        p.kickTimes = times; p.kick = passive ? 0.0 : dv; p.passive = passive != 0;
+        // piecewise exact solution; form 1 is the rotation z0' = w z1, z1' = -w z0 (z0 = x, z1 = v/w), kick on z1
+        const double kickV = passive ? 0.0 : (form ? dv * w : dv);      // in units of velocity v
+        auto xv = [=](double t, double& x, double& v) {
+            x = x0; v = v0; double tk = 0;
+            for (double tn : times) { if (tn > t) break; const double c = std::cos(w * (tn - tk)), s = std::sin(w * (tn - tk)); const double xn = x * c + v / w * s, vn = -x * w * s + v * c; x = xn; v = vn + kickV; tk = tn; }
+            const double c = std::cos(w * (t - tk)), s = std::sin(w * (t - tk)); const double xn = x * c + v / w * s, vn = -x * w * s + v * c; x = xn; v = vn;
+        };
+        if (form == 0) {
+            p.nq = 1; p.y0.q = {x0}; p.y0.u = {v0};
+            p.rhs = [w](Real, const Vector& q, const Vector&, const Vector&, const Vector&, Vector& udot, Vector&) { udot[0] = -w * w * q[0]; };
+            p.exact = [=](double t) { double x, v; xv(t, x, v); Y y; y.q = {x}; y.u = {v}; return y; };
+        } else {
+            p.nz = 2; p.y0.z = {x0, v0 / w};
+            p.rhs = [w](Real, const Vector&, const Vector&, const Vector& z, const Vector&, Vector&, Vector& zdot) { zdot[0] = w * z[1]; zdot[1] = -w * z[0]; };
+            p.exact = [=](double t) { double x, v; xv(t, x, v); Y y; y.z = {x, v / w}; return y; };
+        }
+        P.push_back(p);
+    }
+    return P;
+}
+class KickHandler : public ScheduledEventHandler {
+public:
+    KickHandler(const odesys::OdeSystem& sys, const Problem& p) : sys(sys), times(p.kickTimes), kick(p.kick), passive(p.passive), onZ(p.nz > 0) {}
+    Real getNextEventTime(const State& s, bool includeCurrent) const override {
+        for (double t : times) if (s.getTime() < t || (includeCurrent && s.getTime() == t)) return t;
+        return Infinity;
+    }
+    void handleEvent(State& s, Real, bool&) const override {
+        if (passive) return;                                  // no state access at all: nothing is invalidated
+        if (onZ) s.updZ(sys.subsys())[1] += kick; else sys.setU(s, 0, sys.u(s, 0) + kick);
+    }
+    const odesys::OdeSystem& sys; std::vector<double> times; double kick; bool passive, onZ;
+};
+
 // ---------------------------------------------------------------- running one configuration
 struct Fixture {
     std::unique_ptr<odesys::OdeSystem> sys; State init; const Problem* prob;
     Fixture(const Problem& p) : prob(&p) {
         sys.reset(new odesys::OdeSystem(p.nq, p.nz, p.rhs, 0));
+        if (!p.kickTimes.empty()) sys->addEventHandler(new KickHandler(*sys, p));
         Vector q(p.nq), u(p.nq), z(p.nz);
         for (int i = 0; i < p.nq; ++i) { q[i] = p.y0.q[i]; u[i] = p.y0.u[i]; }
         for (int i = 0; i < p.nz; ++i) z[i] = p.y0.z[i];
@@ -117,9 +312,27 @@ struct Fixture {
     void error(const State& s, double& rms, double& inf) const {
         Y e = prob->exact(s.getTime());
         double ss = 0; inf = 0; int n = 0;
+        if (!prob->group.empty() || prob->envelope) { errorGrouped(s, e, rms, inf); return; }
         auto acc = [&](double got, double want) { double d = std::abs(got - want) / std::max(1.0, std::abs(want)); ss += d * d; inf = std::max(inf, d); n++; };
         for (int i = 0; i < prob->nq; ++i) { acc(sys->q(s, i), e.q[i]); acc(sys->u(s, i), e.u[i]); }
         for (int i = 0; i < prob->nz; ++i) acc(sys->z(s, i), e.z[i]);
+        rms = std::sqrt(ss / std::max(1, n));
+    }
+    // the same rule with the scale taken over a group of coupled components: |got - want| / max(1, max_{j in group} |want_j|).
+    // (A rotating pair (A cos, A sin) is accurate relative to A; the component that happens to cross zero cannot be accurate
+    // relative to itself, and the documentation promises only the local error in the weighted norm.)  Weaker than per component.
+    void errorGrouped(const State& s, const Y& e, double& rms, double& inf) const {
+        std::vector<double> got, want;
+        for (int i = 0; i < prob->nq; ++i) { got.push_back(sys->q(s, i)); want.push_back(e.q[i]); got.push_back(sys->u(s, i)); want.push_back(e.u[i]); }
+        for (int i = 0; i < prob->nz; ++i) { got.push_back(sys->z(s, i)); want.push_back(e.z[i]); }
+        const int n = (int)got.size(); double ss = 0; inf = 0;
+        std::vector<double> env; if (prob->envelope) env = prob->envelope(s.getTime());
+        for (int i = 0; i < n; ++i) {
+            double scale = 1;
+            if (prob->envelope) scale = std::max(scale, env[i]);      // an oscillating component is accurate relative to its amplitude, not to itself
+            else for (int j = 0; j < n; ++j) if (prob->group[j] == prob->group[i]) scale = std::max(scale, std::abs(want[j]));
+            const double d = std::abs(got[i] - want[i]) / scale; ss += d * d; inf = std::max(inf, d);
+        }
         rms = std::sqrt(ss / std::max(1, n));
     }
 };
@@ -137,11 +350,11 @@ static Integrator* makeIntegrator(int integ, const System& sys, double hFixed) {
         default: return new SemiExplicitEulerIntegrator(sys, hFixed > 0 ? hFixed : 0.01);
     }
 }
-static std::vector<double> reportGrid(int grid) {
+static std::vector<double> reportGrid(int grid, double T = TEND) {
     std::vector<double> g;
-    if (grid == 1) for (int k = 1; k < 10; ++k) g.push_back(TEND * k / 10.0);
-    if (grid == 2) { const double f[] = {0.013, 0.09, 0.1, 0.37, 0.371, 0.8, 0.93}; for (double x : f) g.push_back(TEND * x); }
-    g.push_back(TEND);
+    if (grid == 1) for (int k = 1; k < 10; ++k) g.push_back(T * k / 10.0);
+    if (grid == 2) { const double f[] = {0.013, 0.09, 0.1, 0.37, 0.371, 0.8, 0.93}; for (double x : f) g.push_back(T * x); }
+    g.push_back(T);
     return g;
 }
 struct RunResult { double errRep = 0, errStep = 0, errInterp = 0; int steps = 0, nInterp = 0; bool ok = true; std::string what; };
@@ -153,10 +366,10 @@ static RunResult integrate(const Fixture& fx, int integ, double accuracy, int no
     if (norm) I->setUseInfinityNorm(true);
     if (hFixed > 0 && integ != 9) I->setFixedStepSize(hFixed);
     if (everyStep) I->setReturnEveryInternalStep(true);
-    I->setFinalTime(TEND);
+    I->setFinalTime(fx.prob->T);
     try {
         I->initialize(fx.init);
-        std::vector<double> g = reportGrid(grid); size_t gi = 0; int guard = 0;
+        std::vector<double> g = reportGrid(grid, fx.prob->T); size_t gi = 0; int guard = 0;
         while (!I->isSimulationOver() && guard++ < 50000000) {
             const double r = gi < g.size() ? g[gi] : (double)Infinity;
             Status st = I->stepTo(r);
@@ -171,6 +384,34 @@ static RunResult integrate(const Fixture& fx, int integ, double accuracy, int no
             } else if (st == Integrator::TimeHasAdvanced) R.errStep = std::max(R.errStep, e);
         }
         R.steps = I->getNumStepsTaken();
+    } catch (const std::exception& e) { R.ok = false; R.what = e.what(); }
+    return R;
+}
+
+// The same through a TimeStepper (event handlers are called, the integrator is re-initialised after a state change).
+// consTolMode: 0 constraint tolerance left alone (default accuracy/10), 1 setConstraintTolerance(accuracy/10), 2 1e-3, 3 1e-1.
+// The systems have no constraints, so the value is irrelevant to the mathematics.
+static double consTolOf(int mode, double accuracy) { return mode == 1 ? accuracy / 10 : mode == 2 ? 1e-3 : 1e-1; }
+static RunResult integrateTS(const Fixture& fx, int integ, double accuracy, int norm, int grid, int consTolMode, uint64_t* stateHash = nullptr) {
+    RunResult R;
+    std::unique_ptr<Integrator> I(makeIntegrator(integ, *fx.sys, -1));
+    I->setAccuracy(accuracy);
+    if (consTolMode) I->setConstraintTolerance(consTolOf(consTolMode, accuracy));
+    if (norm) I->setUseInfinityNorm(true);
+    try {
+        TimeStepper ts(*fx.sys, *I);
+        ts.initialize(fx.init);
+        uint64_t h = 1469598103934665603ull;
+        for (double r : reportGrid(grid, fx.prob->T)) {
+            Status st = ts.stepTo(r);
+            if (st == Integrator::EndOfSimulation) break;
+            if (st != Integrator::ReachedReportTime || ts.getTime() != r) { R.ok = false; R.what = "TimeStepper::stepTo(" + verif::fmtd(r) + ") returned " + std::string(Integrator::getSuccessfulStepStatusString(st).c_str()) + " at t=" + verif::fmtd(ts.getTime()); return R; }
+            double rms, inf; fx.error(ts.getState(), rms, inf);
+            R.errRep = std::max(R.errRep, norm ? inf : rms);
+            const Vector& y = ts.getState().getY(); for (int i = 0; i < y.size(); ++i) h = verif::hashPod(y[i], h);
+        }
+        R.steps = I->getNumStepsTaken();
+        if (stateHash) *stateHash = h;
     } catch (const std::exception& e) { R.ok = false; R.what = e.what(); }
     return R;
 }
@@ -190,7 +431,41 @@ static double boundK(int integ) {
     static const double K[N_CONTROLLED] = {150, 6, 7, 450, 110, 35, 90, 120, 50};
     return K[integ];
 }
+// Extension families: K(family, method) for err <= K * accuracy * steps * gain and K2(family, method) for err <= K2 * accuracy * gain,
+// both >= 100x the worst value measured on the unchanged tree over all value sets, both tiers (table in notes/C20.md).
+static const char* FAMILIES[] = {"forced", "decay", "grow", "kick", "fastdecay", "fastgrow"};
+static int familyIndex(const std::string& f) { for (int i = 0; i < 6; ++i) if (f == FAMILIES[i]) return i; return -1; }
+static const double UNCLAIMED = 1e300;      // row measured only: Verlet in milliseconds (its error control depends on the time unit, oracle T)
+static double boundKext(const std::string& fam, int integ) {
+    static const double K[6][N_CONTROLLED] = {  // ExplicitEuler RK2 RK3 RKFeldberg RKMerson Verlet SemiExplicitEuler2 CPodes CPodesAdams
+        /* forced   : worst 1.33 .0677 .077 5.83 .734 .789 1.25 .481 .318     */ {140,   7,   8, 600,  75, 80, 130,  50, 32},
+        /* decay    : worst .611 .0295 .0621 1.46 .763 .567 .613 2.5 .381     */ { 62,   3, 6.5, 150,  80, 60,  62, 250, 40},
+        /* grow     : worst .935 .0373 .0656 .806 .978 .914 .937 2.05 .512    */ { 95,   4,   7,  85, 100, 95,  95, 210, 52},
+        /* kick     : worst .874 .0463 .0314 .771 .634 .306 .918 .328 .326    */ { 90,   5, 3.2,  80,  65, 31,  95,  33, 33},
+        /* fastdecay: worst .252 .011 .016 1.23 .792 (80.5) .25 .395 .135     */ { 26, 1.1, 1.6, 125,  80, UNCLAIMED, 25, 40, 14},
+        /* fastgrow : worst .259 .00746 .0151 .546 .613 (27.5) .258 .712 .214 */ { 26, 0.8, 1.6,  55,  62, UNCLAIMED, 26, 72, 22}};
+    return K[familyIndex(fam)][integ];
+}
+static double boundK2ext(const std::string& fam, int integ) {
+    static const double K[6][N_CONTROLLED] = {
+        /* forced   : worst 6.51e3 3.94 1.54 405 16.1 1.38e3 4.69e3 59.8 21    */ {6.6e5, 400, 160, 4.1e4, 1700, 1.4e5, 4.7e5, 6000, 2100},
+        /* decay    : worst 5.51e3 2.65 1.99 113 81.7 1.46e3 3.9e3 375 34.5    */ {5.6e5, 270, 200, 1.2e4, 8200, 1.5e5, 3.9e5, 3.8e4, 3500},
+        /* grow     : worst 8.73e3 4.66 2.88 109 135 2.27e3 6.18e3 501 68.1    */ {8.8e5, 470, 290, 1.1e4, 1.4e4, 2.3e5, 6.2e5, 5.1e4, 6900},
+        /* kick     : worst 3.22e3 2.18 .965 38.2 37.6 464 2.25e3 39.3 25.4    */ {3.3e5, 220, 100, 3900, 3800, 4.7e4, 2.3e5, 4000, 2600},
+        /* fastdecay: worst 4.19e3 1.41 .864 76.9 48.8 (3.6e4) 3e3 62.8 17.9   */ {4.2e5, 150,  90, 7700, 4900, UNCLAIMED, 3e5, 6300, 1800},
+        /* fastgrow : worst 4.97e3 1.58 1.09 78.7 89.6 (4.71e4) 3.35e3 115 25  */ {5e5, 160, 110, 7900, 9000, UNCLAIMED, 3.4e5, 1.2e4, 2500}};
+    return K[familyIndex(fam)][integ];
+}
+// Oracle D on the extension families.  The cubic Hermite interpolant's error is O(h^4 d4y/dt4) whatever the accuracy, and
+// RungeKuttaFeldberg takes the longest steps: on the forced oscillator at 3 w0 its interpolated reports are 31x worse than its
+// step states (1.26x the allowance of the original problems).  setAllowInterpolation documents that interpolated states "may be
+// less accurate", so the allowance is widened to >= 100x the measured worst (RKFeldberg 1.26, all others <= 0.163).
+static double boundDext(int integ) { return integ == 3 ? 150.0 : 20.0; }
 static const double FLOOR = 2e-11;      // below this the error is roundoff / CPODES' own floor, not the controller
+// Nothing is promised when the absolute tolerance (amplified by the growth of the problem) exceeds 5% of the largest magnitude the
+// state has during the whole run (amplitude 1e-4 with accuracy 1e-2, 1e-4): the integrators then take unstable steps that are
+// "accurate enough", and the errors are erratic.  Such runs are not judged (counted unspecified:...).
+static bool vacuousTolerance(const Problem& p, double accuracy) { return accuracy * p.gain > 0.05 * std::min(1.0, p.stateMax); }
 
 int main(int argc, char** argv) {
     verif::Run run("C20", argc, argv);
@@ -198,12 +473,18 @@ int main(int argc, char** argv) {
     const bool thorough = run.thorough();
     std::vector<int> vss; if (thorough) vss = {0, 1, 2}; else vss = {(int)(((run.seed % 3) + 3) % 3)};
     const double ACC[4] = {1e-2, 1e-4, 1e-6, 1e-8};
-    run.rule = "a case = (value set, problem, integrator, norm, report grid) with the whole accuracy ladder {1e-2,1e-4,1e-6,1e-8} (sections A,B,D), or (value set, problem, method) with the "
-               "fixed-step ladder h0..h0/8 (section C); every case integrates to T=2 and compares every report with the closed-form solution; distinct = distinct tuple, all non-trivial";
-    run.assumptions = {"global error is measured with the integrators' own scaling rule (absolute below 1, relative above) in the norm the controller uses",
-                       "K(method) and the ladder factor are calibrated on the unchanged tree (notes/C20.md); they are not derived from theory",
-                       "pendulum reference: harness-written RK4 table with h=5e-5 (error ~1e-16)",
-                       "VERIF_SEED selects one of three parameter sets (rotation angles, frequencies, amplitudes) in the quick tier; thorough runs all"};
+    run.rule = "a case = (value set, problem, integrator, norm, report grid) with the whole accuracy ladder {1e-2,1e-4,1e-6,1e-8} (sections ladder, ladder-ext: oracles A,B,D), "
+               "(value set, kicked problem {(q,u), z} x {state-changing, passive handler}, integrator, norm) with constraint tolerance {default, accuracy/10, 1e-3, 1e-1} x the accuracy ladder through a TimeStepper (section kicks: A,B,E), "
+               "(value set, decay/grow, amplitude, integrator, norm) with the z spiral in seconds and in milliseconds x the accuracy ladder (section time-unit: T), or (value set, problem, method) with the "
+               "fixed-step ladder h0..h0/8 (sections order, order-forced: C, C'); every case integrates to the end of its interval and compares every report with the closed-form solution; distinct = distinct tuple, all non-trivial";
+    run.assumptions = {"global error is measured with the integrators' own scaling rule (absolute below 1, relative above) in the norm the controller uses; for rotating pairs / oscillating components the scale is the amplitude of the pair (weaker than per component)",
+                       "K(method), K(family,method), K2(family,method) and the widened interpolation allowance of the extension families are calibrated on the unchanged tree (>= 100x the measured worst, notes/C20.md); they are not derived from theory",
+                       "the factors 2 (oracles B, E) and 10 (oracle T) are the property's 'not substantially worse', not calibrated numbers (worst measured: B 1.45, E 1.0, T 1.81 except Verlet)",
+                       "growing problems started below 1: the analytic amplification min(e^{kT}, 1/A) of an absolute error is divided out; runs whose (amplified) absolute tolerance exceeds 5% of the largest magnitude of the state are not judged (counted)",
+                       "rows (Verlet, fastdecay/fastgrow) of oracle A are measured only: Verlet's error control depends on the time unit (finding, judged by T)",
+                       "(q,u) growth from 1e4 to 1e8 is not constructed: q is controlled absolutely and 1e-8 of 1e8 is below double precision",
+                       "pendulum references: harness-written RK4 tables with h=5e-5 (error ~1e-16), the forced one for the non-autonomous system",
+                       "VERIF_SEED selects one of three parameter sets (rotation angles, frequencies, amplitudes, forcing, kick period) in the quick tier; thorough runs all"};
 
     struct Case { int vs, prob, integ, norm, grid; };
     std::vector<Case> cases; int nProb = 8;
@@ -302,6 +583,213 @@ int main(int argc, char** argv) {
             if (err[3] < 1e-12) run.count("C_order_not_judged_error_at_roundoff");
             else run.residual("C:documented-minus-observed-order/" + name, p - std::min(o1, o2), 0.3, [&] { return line; }, [&] { return run.replayHeader() + line + "\n"; });
         }
+        if (i % 5 == 0) run.sample(line);
+        if (run.verbose) printf("%s\n", line.c_str());
+    });
+
+    // =====================================================================================================================
+    // Extension sections: non-autonomous problems, state-scale families, event handlers with constraint-tolerance settings
+    // =====================================================================================================================
+    std::map<int, std::vector<Problem>> extSets, kickSets;
+    for (int vs : vss) {
+        std::vector<Problem> a = makeForcedProblems(vs), b = makeScaleProblems(vs);
+        a.insert(a.end(), b.begin(), b.end()); extSets[vs] = a; kickSets[vs] = makeKickProblems(vs);
+    }
+    const int nExt = (int)extSets[vss[0]].size();
+    for (int vs : vss) for (double tk : kickSets[vs][0].kickTimes) for (double r : reportGrid(2))      // which of report / handler comes first at equal times is not documented
+        if (std::abs(tk - r) < 1e-3) run.harnessError("kick time " + verif::fmtd(tk) + " coincides with a report time (value set " + std::to_string(vs) + ")");
+    run.count("excluded_problem_(q,u)-growth-from-1e4_absolute_q_control_below_double_precision", 2 * (int64_t)vss.size());     // spiral(q,u) and fast-cyclic-spiral(q,u)
+
+    // ---- section ladder-ext: oracles A, A2, B, D on the forced / decay / grow families (raw stepTo loop)
+    std::vector<Case> xcases;
+    for (int vs : vss) for (int prob = 0; prob < nExt; ++prob) for (int integ = 0; integ < N_CONTROLLED; ++integ) for (int norm = 0; norm < 2; ++norm) for (int grid = 0; grid < 3; ++grid) {
+        if (!thorough && grid == 1) continue;
+        xcases.push_back({vs, prob, integ, norm, grid});
+    }
+    run.parallel("ladder-ext", (int64_t)xcases.size(), [&](int64_t i) {
+        quietWorker(run);
+        const Case& c = xcases[i]; const std::vector<Problem>& P = extSets[c.vs]; const Problem& prob = P[c.prob];
+        Fixture fx(prob);
+        const std::string name = INTEG_NAMES[c.integ], fam = prob.family, fn = fam + "/" + name;
+        const bool firstOrder = c.integ == 0 || c.integ == 6;
+        double err[4]; bool ok[4];
+        std::string line = caseStr(c, P) + " ->";
+        auto skipped = [&](int a, bool everyStep) {
+            if (vacuousTolerance(prob, ACC[a])) { if (!everyStep) run.count("unspecified:not_judged_tolerance_exceeds_5%_of_the_state_over_the_whole_run"); return true; }
+            if (firstOrder && ACC[a] < (everyStep ? 1e-5 : 1e-7)) { if (!everyStep) run.count("skipped_first_order_method_at_1e-8"); return true; }
+            // q of magnitude 1e4 is controlled absolutely: a first-order method needs > 1e6 steps from 1e-6 on
+            if (firstOrder && prob.largeQ && ACC[a] < 1e-5) { if (!everyStep) run.count("skipped_first_order_method_on_q~1e4_at_1e-6"); return true; }
+            return false;
+        };
+        for (int a = 0; a < 4; ++a) {
+            ok[a] = false; err[a] = NaN;
+            if (skipped(a, false)) continue;
+            RunResult R = integrate(fx, c.integ, ACC[a], c.norm, c.grid, -1, false);
+            run.evaluation(verif::hashStr(caseStr(c, P) + " acc=" + std::to_string(a)), true);
+            ok[a] = R.ok; err[a] = R.errRep;
+            char b[120]; snprintf(b, sizeof b, " acc=%g: err=%.3g (%d steps, %d interpolated)", ACC[a], R.errRep, R.steps, R.nInterp); line += b;
+            if (!R.ok) { run.expect(false, fn + "/integration-failed", [&] { return caseStr(c, P) + " accuracy " + verif::fmtd(ACC[a]) + ": " + R.what.substr(0, 300); }, [&] { return run.replayHeader(); }); continue; }
+            run.outcome(verif::hashPod(R.steps, verif::hashStr(name)));
+            run.count("ext_runs_family_" + fam);
+            auto where = [&] { return caseStr(c, P) + " accuracy " + verif::fmtd(ACC[a]) + " error " + verif::fmtd(R.errRep) + " steps " + std::to_string(R.steps) + " gain " + verif::fmtd(prob.gain); };
+            if (boundKext(fam, c.integ) > 1e299) run.count("unclaimed:A/" + fn + "(measured-only)");
+            run.residual("A:global-error-over-(accuracy*steps)/" + fn, R.errRep / (ACC[a] * std::max(1, R.steps) * prob.gain), boundKext(fam, c.integ), where, [&] { return run.replayHeader() + line + "\n"; });
+            run.residual("A:global-error-over-accuracy/" + fn, R.errRep / (ACC[a] * prob.gain), boundK2ext(fam, c.integ), where, [&] { return run.replayHeader() + line + "\n"; });
+        }
+        for (int a = 0; a + 1 < 4; ++a) {
+            if (!ok[a] || !ok[a + 1]) continue;
+            const double ratio = err[a + 1] / std::max(std::max(err[a], ACC[a + 1] * prob.gain), FLOOR);
+            run.residual("B:error-growth-when-accuracy-tightened-100x/" + fn, ratio, 2.0,
+                         [&] { return caseStr(c, P) + " accuracy " + verif::fmtd(ACC[a]) + " -> " + verif::fmtd(ACC[a + 1]) + ": error " + verif::fmtd(err[a]) + " -> " + verif::fmtd(err[a + 1]); },
+                         [&] { return run.replayHeader() + line + "\n"; });
+        }
+        if (c.grid == 2) {
+            for (int a = 0; a < 3; ++a) {
+                if (skipped(a, true)) continue;
+                RunResult R = integrate(fx, c.integ, ACC[a], c.norm, c.grid, -1, true);
+                run.evaluation(verif::hashStr(caseStr(c, P) + " every-step acc=" + std::to_string(a)), true);
+                if (!R.ok) { run.expect(false, fn + "/integration-failed", [&] { return caseStr(c, P) + " (every step) accuracy " + verif::fmtd(ACC[a]) + ": " + R.what.substr(0, 300); }, [&] { return run.replayHeader(); }); continue; }
+                // the step states of the run are judged too (the error of a decaying problem is largest in the middle of the run)
+                const double eAll = std::max(R.errStep, R.errRep);
+                auto where = [&] { return caseStr(c, P) + " (every step) accuracy " + verif::fmtd(ACC[a]) + " error " + verif::fmtd(eAll) + " steps " + std::to_string(R.steps) + " gain " + verif::fmtd(prob.gain); };
+                run.residual("A:global-error-over-(accuracy*steps)/" + fn, eAll / (ACC[a] * std::max(1, R.steps) * prob.gain), boundKext(fam, c.integ), where, [&] { return run.replayHeader(); });
+                run.residual("A:global-error-over-accuracy/" + fn, eAll / (ACC[a] * prob.gain), boundK2ext(fam, c.integ), where, [&] { return run.replayHeader(); });
+                if (R.nInterp == 0) { run.count("D_no_interpolated_report_in_run"); continue; }
+                const double allow = std::max(10 * R.errStep, 100.0 * ACC[a] * prob.gain);
+                run.residual("D:interpolated-report-error-over-allowance/" + fn, R.errInterp / allow, boundDext(c.integ),
+                             [&] { return caseStr(c, P) + " accuracy " + verif::fmtd(ACC[a]) + ": interpolated " + verif::fmtd(R.errInterp) + " vs step states " + verif::fmtd(R.errStep); },
+                             [&] { return run.replayHeader(); });
+            }
+        }
+        if (i % 61 == 0) run.sample(line);
+        if (run.verbose) printf("%s\n", line.c_str());
+    });
+
+    // ---- section kicks: TimeStepper + scheduled handler x constraint-tolerance setting; oracles A, A2, B and
+    //      E (the constraint tolerance of a system without constraints must not cost accuracy)
+    struct KCase { int vs, prob, integ, norm; };
+    std::vector<KCase> kcases;
+    for (int vs : vss) for (int prob = 0; prob < (int)kickSets[vs].size(); ++prob) for (int integ = 0; integ < N_CONTROLLED; ++integ) for (int norm = 0; norm < 2; ++norm) kcases.push_back({vs, prob, integ, norm});
+    static const char* CT_NAMES[4] = {"default", "accuracy/10", "1e-3", "1e-1"};
+    run.parallel("kicks", (int64_t)kcases.size(), [&](int64_t i) {
+        quietWorker(run);
+        const KCase& c = kcases[i]; const Problem& prob = kickSets[c.vs][c.prob];
+        Fixture fx(prob);
+        const std::string name = INTEG_NAMES[c.integ], fn = "kick/" + name;
+        const std::string cs = "vs=" + std::to_string(c.vs) + " problem=" + prob.name + " integ=" + name + " norm=" + (c.norm ? "inf" : "rms") + " TimeStepper, irregular report grid";
+        const bool firstOrder = c.integ == 0 || c.integ == 6;
+        double err[4][4]; bool ok[4][4]; uint64_t hsh[4][4];
+        std::string line = cs + " ->";
+        for (int ct = 0; ct < 4; ++ct) {
+            line += std::string(" [constraint tolerance ") + CT_NAMES[ct] + "]";
+            for (int a = 0; a < 4; ++a) {
+                ok[ct][a] = false; err[ct][a] = NaN; hsh[ct][a] = 0;
+                if (firstOrder && ACC[a] < 1e-7) { run.count("skipped_first_order_method_at_1e-8"); continue; }
+                RunResult R = integrateTS(fx, c.integ, ACC[a], c.norm, 2, ct, &hsh[ct][a]);
+                run.evaluation(verif::hashStr(cs + " ct=" + std::to_string(ct) + " acc=" + std::to_string(a)), true);
+                ok[ct][a] = R.ok; err[ct][a] = R.errRep;
+                char b[120]; snprintf(b, sizeof b, " acc=%g: err=%.3g (%d steps)", ACC[a], R.errRep, R.steps); line += b;
+                if (!R.ok) { run.expect(false, fn + "/integration-failed", [&] { return cs + " constraint tolerance " + CT_NAMES[ct] + " accuracy " + verif::fmtd(ACC[a]) + ": " + R.what.substr(0, 300); }, [&] { return run.replayHeader(); }); continue; }
+                run.outcome(verif::hashPod(R.steps, verif::hashStr(name)));
+                run.count(prob.passive ? "kick_runs_passive_handler" : "kick_runs_state_changing_handler");
+                auto where = [&] { return cs + " constraint tolerance " + CT_NAMES[ct] + " accuracy " + verif::fmtd(ACC[a]) + " error " + verif::fmtd(R.errRep) + " steps " + std::to_string(R.steps); };
+                run.residual("A:global-error-over-(accuracy*steps)/" + fn, R.errRep / (ACC[a] * std::max(1, R.steps)), boundKext("kick", c.integ), where, [&] { return run.replayHeader() + line + "\n"; });
+                run.residual("A:global-error-over-accuracy/" + fn, R.errRep / ACC[a], boundK2ext("kick", c.integ), where, [&] { return run.replayHeader() + line + "\n"; });
+                if (ct > 0 && ok[0][a]) {
+                    // E: same system, same accuracy, only the (irrelevant) constraint tolerance differs
+                    run.count(hsh[ct][a] == hsh[0][a] ? "E_reports_bitwise_equal_to_default_constraint_tolerance" : "E_reports_differ_from_default_constraint_tolerance");
+                    run.residual("E:error-growth-with-constraint-tolerance-on-unconstrained-system/" + name, R.errRep / std::max(std::max(err[0][a], ACC[a]), FLOOR), 2.0,
+                                 [&] { return cs + " accuracy " + verif::fmtd(ACC[a]) + ": error " + verif::fmtd(err[0][a]) + " with the default constraint tolerance, " + verif::fmtd(R.errRep) + " with " + CT_NAMES[ct]; },
+                                 [&] { return run.replayHeader() + line + "\n"; });
+                }
+            }
+            for (int a = 0; a + 1 < 4; ++a) {
+                if (!ok[ct][a] || !ok[ct][a + 1]) continue;
+                const double ratio = err[ct][a + 1] / std::max(std::max(err[ct][a], ACC[a + 1]), FLOOR);
+                run.residual("B:error-growth-when-accuracy-tightened-100x/" + fn, ratio, 2.0,
+                             [&] { return cs + " constraint tolerance " + CT_NAMES[ct] + " accuracy " + verif::fmtd(ACC[a]) + " -> " + verif::fmtd(ACC[a + 1]) + ": error " + verif::fmtd(err[ct][a]) + " -> " + verif::fmtd(err[ct][a + 1]); },
+                             [&] { return run.replayHeader() + line + "\n"; });
+            }
+        }
+        if (i % 7 == 0) run.sample(line);
+        if (run.verbose) printf("%s\n", line.c_str());
+    });
+
+
+    // ---- section time-unit: oracle T.  The spiral in z written in seconds and in milliseconds is exactly the same dimensionless
+    //      problem (no q; weights and accuracy are dimensionless), so an error-controlled integrator must deliver comparable
+    //      scaled errors in both: err(ms) <= 10 x max(err(s), accuracy).
+    struct TCase { int vs, dir, amp, integ, norm; };
+    std::vector<TCase> tcases;
+    for (int vs : vss) for (int dir = 0; dir < 2; ++dir) for (int amp = 0; amp < 3; ++amp) for (int integ = 0; integ < N_CONTROLLED; ++integ) for (int norm = 0; norm < 2; ++norm) {
+        tcases.push_back({vs, dir, amp, integ, norm});
+    }
+    run.parallel("time-unit", (int64_t)tcases.size(), [&](int64_t i) {
+        quietWorker(run);
+        const TCase& c = tcases[i]; const double AMP[3] = {1e-4, 1.0, 1e4};
+        const Problem slow = zSpiral(c.vs, c.dir, AMP[c.amp], 1.0), fast = zSpiral(c.vs, c.dir, AMP[c.amp], 1e-3);
+        Fixture fs(slow), ff(fast);
+        const std::string name = INTEG_NAMES[c.integ];
+        const std::string cs = "vs=" + std::to_string(c.vs) + " problem=" + slow.name + " in seconds and in milliseconds integ=" + name + " norm=" + (c.norm ? "inf" : "rms") + " grid=2";
+        const bool firstOrder = c.integ == 0 || c.integ == 6;
+        std::string line = cs + " ->";
+        for (int a = 0; a < 4; ++a) {
+            if (vacuousTolerance(slow, ACC[a])) { run.count("unspecified:not_judged_tolerance_exceeds_5%_of_the_state_over_the_whole_run"); continue; }
+            if (firstOrder && ACC[a] < 1e-7) { run.count("T_skipped_first_order_method_at_1e-8"); continue; }
+            RunResult Rs = integrate(fs, c.integ, ACC[a], c.norm, 2, -1, false), Rf = integrate(ff, c.integ, ACC[a], c.norm, 2, -1, false);
+            run.evaluation(verif::hashStr(cs + " acc=" + std::to_string(a)), true);
+            char b[160]; snprintf(b, sizeof b, " acc=%g: err %.3g (%d steps) in s, %.3g (%d steps) in ms;", ACC[a], Rs.errRep, Rs.steps, Rf.errRep, Rf.steps); line += b;
+            if (!Rs.ok || !Rf.ok) { run.expect(false, "time-unit/" + name + "/integration-failed", [&] { return cs + " accuracy " + verif::fmtd(ACC[a]) + ": " + (Rs.ok ? Rf.what : Rs.what).substr(0, 300); }, [&] { return run.replayHeader(); }); continue; }
+            run.outcome(verif::hashPod(Rf.steps, verif::hashPod(Rs.steps, verif::hashStr(name))));
+            run.residual("T:error-in-milliseconds-over-error-in-seconds/" + name, Rf.errRep / std::max(std::max(Rs.errRep, ACC[a] * slow.gain), FLOOR), 10.0,
+                         [&] { return cs + " accuracy " + verif::fmtd(ACC[a]) + ": error " + verif::fmtd(Rs.errRep) + " (" + std::to_string(Rs.steps) + " steps) in seconds, " + verif::fmtd(Rf.errRep) + " (" + std::to_string(Rf.steps) + " steps) in milliseconds"; },
+                         [&] { return run.replayHeader() + line + "\n"; });
+        }
+        if (i % 11 == 0) run.sample(line);
+        if (run.verbose) printf("%s\n", line.c_str());
+    });
+
+    // ---- section order-forced: fixed-step order on the NON-autonomous problems.  Besides the documented order (oracle C)
+    //      the order observed on the autonomous problems of section `order` is the reference (C'): an explicit
+    //      one-step method has the same order with and without explicit time dependence.
+    struct FCase { int vs, prob, integ; };
+    std::vector<FCase> fcases; std::vector<int> forcedIdx;
+    for (int k = 0; k < nExt; ++k) if (extSets[vss[0]][k].family == "forced") forcedIdx.push_back(k);
+    for (int vs : vss) for (int pi : forcedIdx) for (int m = 0; m < 8; ++m) fcases.push_back({vs, pi, fixedMethods[m]});
+    run.parallel("order-forced", (int64_t)fcases.size(), [&](int64_t i) {
+        quietWorker(run);
+        const FCase& c = fcases[i]; const Problem& prob = extSets[c.vs][c.prob];
+        const std::string name = INTEG_NAMES[c.integ];
+        const int p = DOC_ORDER[c.integ];
+        // as in section `order`, but half the step for the methods of order >= 4: the forcing frequencies reach 7.5 rad/s and
+        // h = 0.1 is not yet in the asymptotic regime (observed 3.8 instead of 4.0 on the unchanged tree)
+        const double h0 = p >= 4 ? 0.05 : p == 3 ? 0.05 : p == 2 ? 0.02 : 0.004;
+        // observed order of the last two halvings on one problem; false when an integration failed or the errors are at roundoff
+        auto observe = [&](const Problem& pr, double& order, std::string& text, bool judgeFailure) {
+            Fixture fx(pr); double err[4];
+            text = "problem=" + pr.name + ":";
+            for (int k = 0; k < 4; ++k) {
+                const double h = h0 / (1 << k);
+                RunResult R = integrate(fx, c.integ, 1e-10, 0, 0, h, false);
+                if (judgeFailure) run.evaluation(verif::hashStr("order-forced vs=" + std::to_string(c.vs) + pr.name + name + std::to_string(k)), true);
+                if (!R.ok) { if (judgeFailure) run.expect(false, "forced/" + name + "/integration-failed", [&] { return text + " fixed step h=" + verif::fmtd(h) + ": " + R.what.substr(0, 300); }, [&] { return run.replayHeader(); }); return false; }
+                err[k] = R.errRep;
+                char b[100]; snprintf(b, sizeof b, " h=%g: err=%.3g", h, R.errRep); text += b;
+            }
+            if (err[3] < 1e-12) return false;
+            order = std::min(std::log2(err[1] / err[2]), std::log2(err[2] / err[3]));
+            char b[60]; snprintf(b, sizeof b, " order %.2f;", order); text += b;
+            return true;
+        };
+        double oF = 0, oRef = Infinity; std::string tF, line = "vs=" + std::to_string(c.vs) + " integ=" + name + " fixed step: ";
+        if (!observe(prob, oF, tF, true)) { run.count("C_order_not_judged_error_at_roundoff_or_failed"); return; }
+        line += tF;
+        run.residual("C:documented-minus-observed-order/" + name, p - oF, 0.3, [&] { return line; }, [&] { return run.replayHeader() + line + "\n"; });
+        int nRef = 0;
+        for (int pi = 0; pi < 3; ++pi) { double o; std::string t; if (observe(problemSets[c.vs][orderProblems[pi]], o, t, false)) { oRef = std::min(oRef, o); nRef++; line += " " + t; } }
+        if (nRef == 0) { run.count("C'_no_autonomous_reference_order"); return; }
+        run.residual("C':autonomous-minus-nonautonomous-observed-order/" + name, oRef - oF, 0.3, [&] { return line; }, [&] { return run.replayHeader() + line + "\n"; });
+        run.outcome(verif::hashPod((int)std::lround(oF * 10), verif::hashStr(name)));
         if (i % 5 == 0) run.sample(line);
         if (run.verbose) printf("%s\n", line.c_str());
     });
